@@ -4,14 +4,20 @@
    sections (with the identity of the state object each one was handed, the values that
    went in and out, the counter it saw), resume markers, the final value of every state
    object, the result of every run and the number of generator calls.
-   The model side is Model/StateLock.v part 2 (spec_run, order_ok). *)
-From Eino Require Import Base.Util Model.StateLock.
+   The model side: (a) Model/StateLockDrive.v — the transition system of
+   Model/StateLockLTS.v (the object of the theorems of Props/C11.v) must be able to perform
+   the observed log, and what it computes must be what was observed; (b) Model/StateLock.v
+   part 2 (spec_run, order_ok), an independent deterministic replay of the same log. *)
+From Eino Require Import Base.Util Model.StateLock Model.StateLockLTS Model.StateLockDrive.
 Open Scope N_scope.
 
 Inductive outcome := OVal (x : X) | OErr.
 
 Record ccase := mkCase {
   c_forest : forest;
+  c_gty : list N;                       (* per graph: which of the two state types it declares *)
+  c_nty : list (N * (N * (N * N)));     (* per node: state type its pre-handler / post-handler /
+                                           ProcessState calls are written for *)
   c_x0 : X;
   c_runs : N;
   c_builderr : bool;                    (* AddNode / Compile refused the program *)
@@ -22,17 +28,32 @@ Record ccase := mkCase {
 
 Definition all_nodes (f : forest) : list node := List.concat (map g_nodes f).
 
-(* a state handler on a node of a graph that declares no state is rejected at AddNode *)
-Definition build_err (f : forest) : bool :=
-  existsb (fun g => negb (g_state g) && existsb (fun a => n_pre a || n_post a) (g_nodes g)) f.
+Definition gty_of (gty : list N) (g : nat) : N := nth g gty 0.
+Definition nty_of (nty : list (N * (N * (N * N)))) (n : N) : N * (N * N) :=
+  match nlist_get n nty with Some t => t | None => (0, (0, 0)) end.
 
-(* a lambda that calls ProcessState where no enclosing graph declares state fails the run *)
-Definition must_fail (f : forest) : bool :=
+(* AddNode rejects a state handler on a node of a graph that declares no state, and a state
+   handler written for another state type than the graph's (compose/graph.go:184-224) *)
+Definition build_err_t (f : forest) (gty : list N) (nty : list (N * (N * (N * N)))) : bool :=
+  existsb (fun gg => let '(gi, g) := gg in
+             if g_state g then
+               existsb (fun a => let '(tpre, (tpost, _)) := nty_of nty (n_id a) in
+                                 (n_pre a && negb (N.eqb tpre (gty_of gty gi))) ||
+                                 (n_post a && negb (N.eqb tpost (gty_of gty gi)))) (g_nodes g)
+             else existsb (fun a => n_pre a || n_post a) (g_nodes g))
+          (combine (seq 0 (List.length f)) f).
+
+(* a lambda that calls ProcessState where no enclosing graph declares state, or for another
+   state type than the one of the nearest enclosing graph that does, fails the run
+   (getState: "have not set state" / "unexpected state type") *)
+Definition must_fail_t (f : forest) (gty : list N) (nty : list (N * (N * (N * N)))) : bool :=
   existsb (fun a => match n_sub a with
                     | Some _ => false
                     | None => Nat.ltb 0 (n_ps a) &&
                               match find_node f (n_id a) with
-                              | Some (gi, _) => match owner (S (List.length f)) f gi with Some _ => false | None => true end
+                              | Some (gi, _) => match owner (S (List.length f)) f gi with
+                                                | Some og => negb (N.eqb (snd (snd (nty_of nty (n_id a)))) (gty_of gty og))
+                                                | None => true end
                               | None => true
                               end
                     end) (all_nodes f).
@@ -73,10 +94,46 @@ Definition epochs_of (l : list item) (r : N) : N :=
 Definition count_run (l : list item) (r : N) : nat :=
   List.length (filter (fun it => match it with IEv e => N.eqb (e_run e) r | _ => false end) l).
 
-Definition check (c : ccase) : N :=     (* 0 = agree, otherwise the first check that failed *)
+(* (a) the transition system replays the log. 0 = agree; 200+w: [drive] failed with code w;
+   210 number of sections, 211 a section differs (run, node, kind, value in, value out, state
+   seen), 212 object identities, 213 final value of an object, 214 result of a run,
+   215 generator calls, 216/217 conclusions of the theorems evaluated on the configuration,
+   218 the program is not well formed (hypothesis of nested_between) *)
+Definition check_lts (c : ccase) : N :=
   let f := c_forest c in
-  if build_err f then (if c_builderr c then 0 else 20)
-  else if c_builderr c then 21 else
+  match drive f (c_x0 c) (c_runs c) (c_log c) with
+  | DBad w => 200 + w
+  | DOk g =>
+    let evs := events_of (c_log c) in
+    if negb (Nat.eqb (List.length (c_trace g)) (List.length evs)) then 210 else
+    if negb (all2 (entry_matches g) (c_trace g) evs) then 211 else
+    let ps := obj_pairs g (c_log c) in
+    if negb (bijective ps) then 212 else
+    if negb (forallb (fun os => match pair_get (fst os) ps with
+                                | None => false
+                                | Some o => match nth_error (c_objs g) o with
+                                            | Some r => s_eqb (o_val r) (snd os)
+                                            | None => false
+                                            end
+                                end) (c_finals c)) then 213 else
+    if negb (forallb (fun ro => match snd ro with
+                                | OErr => true
+                                | OVal x => match find_inst sstate X g (fst ro) 0 with
+                                            | Some i => match inst_result sstate X merge f g i with
+                                                        | Some y => x_eqb x y
+                                                        | None => false
+                                                        end
+                                            | None => false
+                                            end
+                                end) (c_results c)) then 214 else
+    if negb (must_fail_t f (c_gty c) (c_nty c)) && negb (N.eqb (N.of_nat (List.length (StateLockLTS.c_gens g))) (c_gens c)) then 215 else
+    if negb (fold_ok g) then 216 else
+    if negb (order_done_ok f g) then 217 else
+    if negb (topo_ok f) then 218 else 0   (* hypothesis of nested_between *)
+  end.
+
+Definition check_spec (c : ccase) : N :=     (* 0 = agree, otherwise the first check that failed *)
+  let f := c_forest c in
   match spec_run f (c_x0 c) (mkSp [] []) (c_log c) with
   | VBad w => 100 + w
   | VOk st =>
@@ -98,8 +155,8 @@ Definition check (c : ccase) : N :=     (* 0 = agree, otherwise the first check 
     (* results *)
     if negb (forallb (fun ro =>
           match snd ro with
-          | OErr => must_fail f
-          | OVal x => negb (must_fail f) &&
+          | OErr => must_fail_t f (c_gty c) (c_nty c)
+          | OVal x => negb (must_fail_t f (c_gty c) (c_nty c)) &&
                       match spec_result f (c_x0 c) st (fst ro) with
                       | Some y => x_eqb x y
                       | None => false
@@ -108,8 +165,17 @@ Definition check (c : ccase) : N :=     (* 0 = agree, otherwise the first check 
           end) (c_results c)) then 33 else
     if negb (N.eqb (N.of_nat (List.length (c_results c))) (c_runs c)) then 34 else
     (* generator calls = runs x stateful graphs (complete runs) *)
-    if negb (must_fail f) && negb (N.eqb (c_gens c) (c_runs c * stateful_count f)) then 35
+    if negb (must_fail_t f (c_gty c) (c_nty c)) && negb (N.eqb (c_gens c) (c_runs c * stateful_count f)) then 35
     else 0
+  end.
+
+Definition check (c : ccase) : N :=
+  let f := c_forest c in
+  if build_err_t f (c_gty c) (c_nty c) then (if c_builderr c then 0 else 20)
+  else if c_builderr c then 21 else
+  match check_lts c with
+  | 0 => check_spec c
+  | w => w
   end.
 
 Definition bad (c : ccase) : bool := negb (N.eqb (check c) 0).
